@@ -170,7 +170,11 @@ Fixpoint bar_loop (lowest : bool) (cs : list cd) (name : string) (idxs : list Z)
     cur_ <- rbi cs name j ;;
     if is_none NO cur_ then bar_loop lowest cs name rest (k + 1) best distance else
     match best with
-    | None => bar_loop lowest cs name rest (k + 1) (Some cur_) k     (* first reading found *)
+    | None =>
+      (* first reading found: it becomes the extreme, and is then compared with itself
+         (which is where a dict reading raises TypeError) *)
+      _ <- (if lowest then val_gt cur_ cur_ else val_lt cur_ cur_) ;;
+      bar_loop lowest cs name rest (k + 1) (Some cur_) k
     | Some best0 =>
       better <- (if lowest then val_gt best0 cur_ else val_lt best0 cur_) ;;
       if better then bar_loop lowest cs name rest (k + 1) (Some cur_) k
